@@ -267,6 +267,7 @@ type c19Tree struct {
 	NamePrefix   string            `json:"namePrefix"`
 	Namespace    string            `json:"namespace"`
 	CommonAnn    map[string]string `json:"commonAnnotations"`
+	Mode         string            `json:"mode,omitempty"`
 }
 
 func c19GenTree(g *Rng, allowOverlap bool) *c19Tree {
@@ -313,7 +314,13 @@ spec:
 	if g.Chance(30) {
 		baseK += "commonLabels:\n  layer: base\n"
 	}
-	baseGens := g.Chance(55)
+	// the shape of the app layer, chosen up front
+	roll := g.Intn(100)
+	wantDeletes := roll < 12
+	wantOverlap := allowOverlap && roll >= 12 && roll < 30
+	wantJSONMeta := roll >= 30 && roll < 70
+	wantMulti := roll >= 50 && roll < 70
+	baseGens := wantJSONMeta || g.Chance(50)
 	if baseGens {
 		// generator outputs of the base still await their hash suffix while the app layer is processed
 		baseK += "configMapGenerator:\n- name: settings\n  literals:\n  - mode=prod\n  options:\n    labels:\n      gl: a\n    annotations:\n      ga: b\n" +
@@ -388,17 +395,39 @@ spec:
 		t.Patches = []types.Patch{{Path: "p3.yaml", Target: &types.Selector{ResId: resid.ResId{Gvk: resid.Gvk{Kind: "Deployment"}}}}}
 	}
 	metaJSON := false
-	if allowOverlap && g.Chance(30) {
+	if wantDeletes {
+		// a strategic-merge patch FILE with two `$patch: delete` documents for ADJACENT resources: the
+		// deprecated field removes them itself, `patches:` leaves the emptied resources to DropEmpties.
+		// Nothing else of the layer may address the deleted resources.
+		t.Files["app/del.yaml"] = "apiVersion: apps/v1\nkind: Deployment\nmetadata:\n  name: web\n$patch: delete\n---\napiVersion: v1\nkind: Service\nmetadata:\n  name: web\n$patch: delete\n"
+		if g.Chance(40) {
+			// three adjacent deletions
+			t.Files["app/del.yaml"] = "apiVersion: v1\nkind: ConfigMap\nmetadata:\n  name: plain\n$patch: delete\n---\n" + t.Files["app/del.yaml"]
+		}
+		t.Mode = "adjacent-deletes"
+		t.SMPatches = []string{"del.yaml"}
+		t.JsonPatches, t.Patches = nil, nil
+		delete(t.Files, "app/p3.yaml")
+		delete(t.Files, "app/json.yaml")
+		delete(t.Files, "app/smp.yaml")
+		if g.Chance(40) {
+			t.NamePrefix = "app-"
+		}
+		return t
+	}
+	if wantOverlap {
 		// the SAME key in a labels entry and in commonLabels, different values: the hand rewrite puts the
 		// former commonLabels LAST (labels ++ [{pairs, includeSelectors: true}]), which is also the order in
 		// which the label transformer instances run (`edit fix` refuses such a file, the build does not)
+		t.Mode = "overlapping-label-keys"
 		t.CommonLabels = map[string]string{"team": "from-common"}
 		t.Labels = []types.Label{{Pairs: map[string]string{"team": "from-labels"}, IncludeTemplates: g.Bool(), IncludeSelectors: g.Chance(30)}}
 		if g.Chance(40) {
 			t.Labels = append(t.Labels, types.Label{Pairs: map[string]string{"tier": "t1", "team": "second"}})
 		}
-	} else if baseGens && g.Chance(60) {
+	} else if wantJSONMeta {
 		metaJSON = true
+		t.Mode = "json-whole-metadata"
 		// JSON6902 patches on whole metadata objects of generated and ordinary resources; nothing else of
 		// this layer writes labels/annotations, so the patches stay disjoint from the other directives
 		t.CommonLabels, t.Labels, t.CommonAnn, t.Patches = nil, nil, nil, nil
@@ -416,6 +445,26 @@ spec:
 			{ResId: resid.ResId{Name: "settings", Gvk: resid.Gvk{Version: "v1", Kind: "ConfigMap"}}},
 			{ResId: resid.ResId{Name: "creds", Gvk: resid.Gvk{Version: "v1", Kind: "Secret"}}},
 			{ResId: resid.ResId{Name: "web", Gvk: resid.Gvk{Group: "apps", Version: "v1", Kind: "Deployment"}}},
+		}
+		if wantMulti {
+			t.Mode = "json-multi-target"
+			// ONE patch whose target selects SEVERAL resources: no kind (Deployment and Service `web`), a
+			// regular expression as name (the deprecated field insists on a name: a name-less target cannot be
+			// written in it, so `.*` stands for "every ConfigMap")
+			multi := []types.Selector{
+				{ResId: resid.ResId{Name: "web"}},
+				{ResId: resid.ResId{Name: "w.*"}},
+				{ResId: resid.ResId{Name: "web|plain"}},
+				{ResId: resid.ResId{Name: ".*", Gvk: resid.Gvk{Version: "v1", Kind: "ConfigMap"}}}, // every ConfigMap
+				{ResId: resid.ResId{Name: ".*s$"}},
+			}
+			tg := multi[g.Intn(len(multi))]
+			t.Files["app/multi.yaml"] = g.Pick([]string{ops[0], ops[4]}) // whole-object add: valid on every resource
+			t.JsonPatches = []types.Patch{{Path: "multi.yaml", Target: &tg}}
+			if g.Chance(40) {
+				t.NamePrefix = "app-"
+			}
+			return t
 		}
 		n := 1 + g.Intn(2)
 		perm := []int{0, 1, 2}
@@ -546,8 +595,23 @@ func c19SubsetName(dep map[string]bool) string {
 
 // spellingLaws: every subset of deprecated spellings builds to the bytes of the all-current form.
 func c19SpellingLaws(r *Run, t *c19Tree, subsets []map[string]bool) {
+	mode := t.Mode
+	if mode == "" {
+		mode = "plain"
+	}
+	r.Count("tree_mode", mode)
 	ref, err := t.buildWith(map[string]bool{})
 	if err != nil {
+		all := map[string]bool{}
+		for _, sp := range c19Spellings {
+			all[sp] = true
+		}
+		if out, err2 := t.buildWith(all); err2 == nil {
+			// the tree builds with the deprecated spellings but not with the current ones
+			r.Violation(OracleViolation{Law: "spelling_equivalence", Class: "current-spelling-fails-where-deprecated-builds:" + mode,
+				Detail: fmt.Sprintf("all current: %v\nall deprecated builds:\n%s", err, out), Replay: map[string]interface{}{"tree": t, "subset": c19SubsetName(all)}})
+			return
+		}
 		// the generator is meant to produce buildable trees; a failing reference is a generator
 		// defect, reported loudly rather than skipped
 		r.Violation(OracleViolation{Law: "tree_builds", Class: "c19-generated-tree-does-not-build", Detail: err.Error(), Replay: map[string]interface{}{"tree": t}})
